@@ -19,11 +19,35 @@ def main():
     if a.replay:
         return mod.replay(a.replay) if hasattr(mod, 'replay') else generic_replay(mod, a.replay)
     try:
-        return mod.run(tier=a.tier, seed=seed, only=a.only)
+        rc = mod.run(tier=a.tier, seed=seed, only=a.only)
+        if rc == 0 and a.tier == 'thorough' and not a.only and not os.environ.get('PYVC_MUTATE'):
+            rc = mutant_gate(a.pid)
+        return rc
     except Exception:
         traceback.print_exc()
         print('CHECKER-ERROR: %s crashed' % a.pid)
         return 3
+
+
+def mutant_gate(pid):
+    """thorough tier: the verifier itself is tested against the in-memory mutants tagged with this property; a surviving
+    mutant means a pass of this check cannot be trusted -> checker error"""
+    import subprocess
+    root = os.path.dirname(os.path.dirname(os.path.abspath(__file__)))
+    p = subprocess.run([sys.executable, os.path.join(root, 'tools', 'mutant_gate.py'), '--only', pid, '-j', '8'], capture_output=True, text=True)
+    tail = [l for l in p.stdout.splitlines() if l.strip()][-1:] or ['']
+    print('mutant gate: ' + tail[0])
+    for l in p.stdout.splitlines():
+        if 'SURVIVED' in l:
+            print('CHECKER-ERROR: mutant survived: ' + l.strip()[:200])
+    try:
+        ev = os.path.join(root, 'evidence', pid + '.json')
+        d = json.load(open(ev))
+        d['coverage']['mutant_gate'] = json.load(open(os.path.join(root, 'evidence', 'mutant_gate_%s.json' % pid)))
+        json.dump(d, open(ev, 'w'), indent=1, default=repr)
+    except Exception:
+        pass
+    return 3 if p.returncode != 0 else 0
 
 
 def generic_replay(mod, path):
